@@ -12,12 +12,16 @@ import (
 	ipfslog "berty.tech/go-ipfs-log"
 	"berty.tech/go-orbit-db/iface"
 	"berty.tech/go-orbit-db/stores/basestore"
+	"berty.tech/weshnet/v2/pkg/ipfsutil"
 	"berty.tech/weshnet/v2/pkg/protocoltypes"
 	"berty.tech/weshnet/v2/pkg/secretstore"
 )
 
 func verif_datastore(name string) datastore.Datastore         { panic("intrinsic") }
-func verif_keystore() keystore.Keystore                       { panic("intrinsic") }
+
+func verifKeystore(name string) keystore.Keystore {
+	return ipfsutil.NewDatastoreKeystore(verif_datastore(name + ".keystore"))
+}
 func verif_background() context.Context                       { panic("intrinsic") }
 func verif_anyCid(name string) cid.Cid                        { panic("intrinsic") }
 func verif_honestKey(k crypto.PrivKey)                        { panic("intrinsic") }
@@ -29,10 +33,11 @@ func verif_newLog() ipfslog.Log                               { panic("intrinsic
 func verif_logAppend(l ipfslog.Log, value []byte) ipfslog.Entry { panic("intrinsic") }
 func verif_logPermute(l ipfslog.Log)                          { panic("intrinsic") }
 func verif_logCopy(l ipfslog.Log) ipfslog.Log                 { panic("intrinsic") }
+func verif_logView(l ipfslog.Log) ipfslog.Log                 { panic("intrinsic") }
 
 func verifSecretStore(name string) secretstore.SecretStore {
 	s, err := secretstore.NewSecretStore(verif_datastore(name), &secretstore.NewSecretStoreOptions{
-		Keystore:                           verif_keystore(),
+		Keystore:                           verifKeystore(name),
 		PreComputedKeysCount:               2,
 		PrecomputeOutOfStoreGroupRefsCount: 1,
 	})
